@@ -9,7 +9,9 @@ def decFormat (s : String) : Format :=
 def decTypeName (s : String) : Option TypeName :=
   if s == "Text" then some .text else if s == "Integer" then some .integer
   else if s == "Choice" then some .choice else if s == "Constant" then some .constant
-  else if s == "Scripted" then some (.scripted '!') else none
+  else if s == "Scripted" then some (.scripted '!')
+  else if s == "Decimal" then some .decimal else if s == "DateTime" then some .datetime
+  else if s == "Pattern" then some .pattern else if s == "RegEx" then some .regex else none
 
 def encValue : Value → String
   | .none => "N"
@@ -39,6 +41,24 @@ def opFields (args : List String) : String :=
       | .error e => "allowed:" ++ e.tag
       | .ok al =>
         match declareField tn (decFormat fmt) al (empty == "1") (decStr len) (decStr rule) with
+        | .error e => e.tag
+        | .ok f =>
+          let cs := (splitList cells ",").map decStr
+          "ok M=" ++ ",".intercalate (cs.map (fun c => encCellOut (f.validated c))) ++
+            " G=" ++ ",".intercalate (cs.map (fun c => encGuard (guardSpec f c))) ++
+            " E=" ++ encValue f.kind.emptyValue
+  | ["field.declx", ty, fmt, allowed, empty, len, rule, dec, thou, cells] =>
+    match decTypeName ty with
+    | none => "bad-type"
+    | some tn =>
+      let allowedR : Out (Option Range) :=
+        if allowed == "n" then .ok none else (Range.parse (decStr allowed)).map some
+      match allowedR with
+      | .error e => "allowed:" ++ e.tag
+      | .ok al =>
+        let info : FormatInfo := { format := decFormat fmt, allowed := al, decimalSep := (decStr dec).headD '.',
+                                   thousandsSep := (decStr thou).head? }
+        match declareFieldIn tn info (empty == "1") (decStr len) (decStr rule) with
         | .error e => e.tag
         | .ok f =>
           let cs := (splitList cells ",").map decStr
